@@ -150,7 +150,7 @@ theorem C14_read_only_step (S : Sem P O) (st : St P) (op : Op) (h : op.writesPar
 
 /-- the operations the property names are among them -/
 theorem C14_read_only_ops (i k num ns nc bi stp arg rows path : Nat) (init : Option Nat) :
-    (Op.sample i k num init).writesParams = false
+    (Op.sample i k num init arg).writesParams = false
     ∧ (Op.statistics i ns nc bi stp init arg).writesParams = false
     ∧ (Op.eval i arg).writesParams = false ∧ (Op.metric i arg).writesParams = false
     ∧ (Op.rotate i arg).writesParams = false ∧ (Op.gradient i arg).writesParams = false
@@ -200,7 +200,8 @@ theorem C14_read_only_skeleton (S : Sem P O) (st : St P) (ops : List Op) :
 
 /-- **C14.4 (one step).** An operation other than an effective `set_random_seed` keeps the seed
 and advances torch's generator by exactly the total element count of the random calls the model
-lists for it (`stepCalls`, compared call by call with the calls observed in the implementation). -/
+lists for it (`stepCalls`; the harness compares the element TOTAL per operation with what the recorders observe —
+which torch function draws the elements and in which order inside one operation is not compared). -/
 theorem C14_draw_count_step (S : Sem P O) (st : St P) (op : Op) (h : ∀ s', op ≠ .setSeed s' true) :
     (step S st op).1.torchGen = ⟨st.torchGen.seedOf, st.torchGen.pos + stepDraws st op⟩ :=
   step_torchGen S st op h
@@ -258,7 +259,7 @@ by `C14_read_only_step` / `C14_read_only`.  (Which PUBLIC callables of the libra
 established by the correspondence harness, by introspection of the API; a public callable without a class breaks the check.) -/
 theorem C14_read_only_ops_ext (i k num arg : Nat) (init : Option Nat) :
     (Op.obsSample i k num init arg).writesParams = false ∧ (Op.obsSample i k num init arg).isPure = true ∧
-    (∀ (st : St P), stepCalls st (.obsSample i k num init arg) = stepCalls st (.sample i k num init)) ∧
+    (∀ (st : St P), stepCalls st (.obsSample i k num init arg) = stepCalls st (.sample i k num init arg)) ∧
     (∀ op : Op, op.writesParams = true →
       (∃ kd n h a, op = .construct kd n h a) ∨ (∃ j, op = .reinit j) ∨ (∃ j c, op = .fit j c) ∨ (∃ j p, op = .load j p)) := by
   refine ⟨rfl, rfl, fun st => ?_, fun op h => ?_⟩
@@ -433,12 +434,12 @@ def exM₂ : St Nat := St.fresh Nat ⟨77, 123⟩ ⟨8, 41⟩ ⟨9, 3⟩
 statistics, a gradient with Gibbs chain, save; numpy / `random` perturbed differently -/
 def exSuf₁ : List Op :=
   [.perturbNumpy 3, .construct .dens 2 (some 3) (some 1), .construct .pos 3 none none, .seedPy 4,
-   .sample 0 2 5 none, .statistics 1 7 2 3 1 none 0, .batchGradient 0 2 4 1, .save 0 0, .reinit 1,
-   .sample 1 0 4 none]
+   .sample 0 2 5 none 0, .statistics 1 7 2 3 1 none 0, .batchGradient 0 2 4 1, .save 0 0, .reinit 1,
+   .sample 1 0 4 none 0]
 def exSuf₂ : List Op :=
   [.construct .dens 2 (some 3) (some 1), .seedNumpy 99, .construct .pos 3 none none,
-   .sample 0 2 5 none, .perturbPy 17, .statistics 1 7 2 3 1 none 0, .batchGradient 0 2 4 1, .save 0 0,
-   .perturbNumpy 1, .reinit 1, .sample 1 0 4 none]
+   .sample 0 2 5 none 0, .perturbPy 17, .statistics 1 7 2 3 1 none 0, .batchGradient 0 2 4 1, .save 0 0,
+   .perturbNumpy 1, .reinit 1, .sample 1 0 4 none 0]
 
 example : lib exSuf₁ = lib exSuf₂ := by decide
 example : ClosedAbove exM₁.nextId exSuf₁ := fun _ _ _ _ => Nat.zero_le _
@@ -473,6 +474,21 @@ example : (run tokenSem exM₁ (.setSeed 7 true :: exSuf₁)).2 = (run tokenSem 
   C14_same_stream_same_results tokenSem exM₁ 7 4294967303 7 4294967303 (by decide) (by decide) (fun _ => rfl) exSuf₁
 example : seedWord (-1) = seedWord 18446744073709551615 := by decide
 example : seedWord 18446744073709551616 = none ∧ seedWord (-9223372036854775809) = none := by decide
+
+/-- The CONTENT of `initial_state` is part of the operation (`arg` of `Op.sample`): two histories that differ only in the
+start chains handed to one `sample(k = 0, initial_state = …)` call (same row count, same `num_samples`) are NOT "the same
+sequence of operations" — `lib` separates them, so `C14_seeded_determinism` says nothing about the pair — and under the
+token semantics the two calls return different values although they sit at the same position of the same stream on the
+same unchanged object (as the library does: `k = 0` returns the clone of the start chains). -/
+example : lib (exSuf₁ ++ [.sample 0 0 2 (some 4) 17]) ≠ lib (exSuf₁ ++ [.sample 0 0 2 (some 4) 18]) := by decide
+example : (run tokenSem exM₁ (.setSeed 5 true :: exSuf₁ ++ [.sample 0 0 2 (some 4) 17])).2
+    ≠ (run tokenSem exM₁ (.setSeed 5 true :: exSuf₁ ++ [.sample 0 0 2 (some 4) 18])).2 := by decide +kernel
+/-- … whereas the SAME call repeated at the same stream position on the unchanged object (re-seeding in between) returns the
+same value: the pattern the harness' `pattern/results` point relies on. -/
+def exRep : List (Out Nat) :=
+  (run tokenSem exM₁ [.setSeed 5 true, .construct .pos 3 none none, .setSeed 9 true, .sample 0 0 2 (some 4) 17,
+      .setSeed 9 true, .sample 0 0 2 (some 4) 17, .setSeed 9 true, .sample 0 0 2 (some 4) 18]).2
+example : exRep[3]? = exRep[5]? ∧ exRep[3]? ≠ exRep[7]? ∧ exRep[3]? ≠ some .none ∧ exRep.length = 8 := by decide +kernel
 
 /-- draw counts of the example: density matrix n=2,h=3,a=1 → 2·(3·2+1·2) = 16 normals;
 `sample(k=2, 5 chains)` → 5·2 + 2·5·(3+1+2) = 70; a fit of a positive state with N=10, B=4,
